@@ -6,7 +6,7 @@ from core import env
 from core import term as T
 
 ID = "C12"
-GEN = []
+GEN = ["mutpins"]
 RULE = ("cell cases: 2-8 share slots on a real StorageServer, 1-3 writers, random interleavings of survey / guarded-write events "
         "(bounded exhaustive over all interleavings of two writers on <= 3 cells in the thorough tier); non-trivial = at least one refused write; "
         "grid cases: 2-3 clients overwrite one mutable file concurrently under seeded response orders, k and N on both sides of (W+1)k <= N")
